@@ -61,7 +61,7 @@ func genFamPlan(t *rapid.T, label string) famPlan {
 	case 0:
 		return famPlan{class: "status", code: rapid.SampledFrom([]int{404, 500, 503}).Draw(t, label+".code"), body: []byte("no")}
 	case 1:
-		return famPlan{class: "garbage", code: 200, body: genArbitrary(t)}
+		return famPlan{class: "garbage", code: 200, body: defuse(genArbitrary(t))}
 	}
 	m := &hModel{form: "compact"}
 	for i, n := 0, rapid.IntRange(0, 3).Draw(t, label+".npeers"); i < n; i++ {
